@@ -37,6 +37,7 @@ type c02Run struct {
 	lastPC   ProgramCounter // counter both engines report on the last leg when they agree
 	lastExit ExitReason
 	hosts    int
+	pcA, pcB ProgramCounter // counters returned on the last leg
 }
 
 func c02ExitName(e ExitReason) string {
@@ -76,6 +77,7 @@ func c02Both(pa, pb *Program, w *c01World, gas uint64, want bool) c02Run {
 		la.panicked, la.msg, la.site = c01Guard(func() { la.exit, la.pc = A.SingleStepInvokeDecodedBlocks(pcA) })
 		lb.panicked, lb.msg, lb.site = c01Guard(func() { lb.exit, lb.pc = B.SingleStepInvoke(pcB) })
 		out.exitA, out.exitB = la.exit, lb.exit
+		out.pcA, out.pcB = la.pc, lb.pc
 		switch {
 		case la.panicked && lb.panicked:
 			out.differ, out.kind, out.site = true, "go-panic-both", la.site
@@ -240,6 +242,22 @@ func c02Check(r *vlib.Run, blob []byte, w *c01World, gas uint64, note string) st
 	}
 	rp, err := refpvm.Deblob(blob)
 	key := "unlabelled"
+	if err == nil && cul.site == "" {
+		// one engine merely ran out of gas where the other ended the run: if the instruction
+		// it could not pay for is unfetchable (past the code, or no bitmask bit) blame that one -
+		// the engines differ on the implicit trap, not on the instruction before it
+		aOOG := cul.exitA.GetReasonType() == OUT_OF_GAS
+		bOOG := cul.exitB.GetReasonType() == OUT_OF_GAS
+		if aOOG != bOOG {
+			nx := uint64(cul.pcA)
+			if bOOG {
+				nx = uint64(cul.pcB)
+			}
+			if nx >= uint64(len(rp.Code)) || !rp.K(nx) {
+				blame = nx
+			}
+		}
+	}
 	if err == nil {
 		key = c02StaticKey(rp, blame)
 		if op := rp.Zeta(blame); cul.kind == "reg" || cul.kind == "mem" {
